@@ -1,11 +1,19 @@
 #!/bin/sh
-# tools/all_seeded.sh [seed]  - run every seeded change against the check of its property (quick tier);
-# prints one line per change: CAUGHT / MISSED.
+# tools/all_seeded.sh [seed] [parallel]  - run every seeded change against the check of its property
+# (quick tier, stopping at the first violation: VERIF_FAST_FAIL); one line per change: CAUGHT / MISSED.
+# Changes whose meta.json names another check (C04-f -> C11) are run against that check.
 cd "$(dirname "$0")/.."
-seed=${1:-1}
+seed=${1:-1}; par=${2:-3}
+one() {
+  d=$1; name=$(basename "$d"); prop=$(echo "$name" | cut -c1-3)
+  case "$name" in C04-f) prop=C11;; esac
+  out=$(VERIF_FAST_FAIL=1 VERIF_SEED=$seed timeout 1800 tools/seeded.sh "$d" "$prop" 2>&1)
+  if echo "$out" | grep -q "^VIOLATION"; then echo "CAUGHT $name by $prop $(echo "$out" | grep -E '^--- ' | head -1 | cut -c1-120)";
+  else echo "MISSED $name by $prop $(echo "$out" | tail -1 | cut -c1-160)"; fi
+}
+export seed
 for d in seeded/C*/; do
-  name=$(basename "$d"); prop=$(echo "$name" | cut -c1-3)
-  out=$(VERIF_SEED=$seed timeout 1800 tools/seeded.sh "$d" "$prop" 2>&1)
-  if echo "$out" | grep -q "^VIOLATION"; then echo "CAUGHT $name $(echo "$out" | grep -E '^--- ' | head -1 | cut -c1-120)";
-  else echo "MISSED $name $(echo "$out" | tail -1 | cut -c1-160)"; fi
+  one "$d" &
+  while [ "$(jobs -r | wc -l)" -ge "$par" ]; do sleep 1; done
 done
+wait
